@@ -141,7 +141,7 @@ def _arg_variants(case):
             if dt not in ("int64",):
                 new = copy.deepcopy(case)
                 try:
-                    new["program"][i]["flat"] = [int(x) for x in st["flat"]]
+                    new["program"][i]["flat"] = [int(x) if not isinstance(x, str) else 0 for x in st["flat"]]
                     new["program"][i]["dtype"] = "int64"
                     yield new
                 except Exception:
